@@ -46,6 +46,13 @@ Y   input spellings: the same wrapped values handed over in every memory layout 
     without mask, on fields that contain wraps.  Judged by the usual oracle AND differentially against the contiguous
     float32 / bool call; inputs (and the memory around views) must stay bitwise unchanged.  Torch tensors of float32 /
     float64 in any layout must be accepted; a rejection of any other spelling is counted per spelling, not flagged.
+T   two threads, preemption bound 1, owned scheduler: thread A makes one call under a per-thread sys.settrace hook that sees
+    only imaging_utils.py frames and parks (threading.Event) at its k-th line event; thread B then makes one complete call;
+    A resumes.  k runs over every distinct code location A passes (visits 1, 2, 10, 100, last; denser in thorough), plus the
+    two schedules without preemption, for ordered field pairs of the same shape / same pixel count / other pixel count,
+    bounded and periodic, with and without mask.  Each thread's result must satisfy the oracle for ITS OWN field and equal
+    its single-threaded result; the trace up to the parking point must be the recorded one and replayed schedules must be
+    identical (else Broken).  Histories of 4 (thorough 5) calls over {2 shapes} x {bounded, periodic} extend part H.
 P   the FFT Poisson method is outside the exactness claim: only "does not raise" (wrap_around=True; it is
     NotImplemented by design for wrap_around=False, which is recorded, not judged).
 """
@@ -84,7 +91,9 @@ CLAIM = (
     "union-find merged in four structured orders, and for the last call of every ordered pair (thorough: triple) of calls from a "
     "9-call alphabet after a fresh re-import of the module, with all inputs bitwise unchanged. Every memory layout / dtype / "
     "autograd state / mask dtype spelling of the input that the entry point accepts gives the same answer as the contiguous "
-    "float32 call on non-square bounded and periodic grids. Model checking is the right "
+    "float32 call on non-square bounded and periodic grids. With two threads making one call each and at most one preemption, "
+    "placed at every code location of the library that the first thread passes, both results equal their single-threaded results. "
+    "Model checking is the right "
     "level because the guarantee rests on offset bookkeeping that must hold for every merge order, which no single input reaches."
 )
 NOTE = (
@@ -107,7 +116,9 @@ RULE = (
     "long shapes x masks x fields x dtype; non-trivial when the true wrap count spans more than 127 inside one region. A3: every "
     "(chain length, merge order, slope sign). H: every ordered pair (thorough: triple) of the call alphabet; non-trivial when an "
     "earlier call differs from the judged last call. Y: full product of (grid, wrap, field, mask geometry) x input spellings; "
-    "non-trivial when the field really wraps on the mask and the spelling is not the canonical one."
+    "non-trivial when the field really wraps on the mask and the spelling is not the canonical one. T: ordered field pairs x "
+    "(every distinct library code location of thread A x visit numbers {1, 2, 10, 100, last}) + the two sequential schedules; "
+    "non-trivial when the preemption lies inside the library and thread A's field wraps."
 )
 
 TWO_PI = 2.0 * math.pi
@@ -1272,6 +1283,34 @@ def h_worker(item, seed=0):
     return t
 
 
+def h_core_alphabet():
+    """{shape, control shape} x {bounded, periodic}: the alphabet for the deeper histories."""
+    return [(k, shp) for shp in (H_SHAPE, H_CONTROL) for k in ("bounded_winding", "seam_disc_periodic")]
+
+
+def h_deep_worker(item, seed=0, depth=4):
+    """Every history of exactly `depth` calls over the 4-call core alphabet that starts with the two calls in `item`."""
+    prefix = [(c[0], tuple(c[1])) for c in item]
+    core = h_core_alphabet()
+    t = Tally()
+    try:
+        for tail in itertools.product(core, repeat=depth - len(prefix)):
+            hist = prefix + list(tail)
+            bad = h_run_history(hist, seed)
+            hj = [[c[0], list(c[1])] for c in hist]
+            case = {"part": "H", "history": hj}
+            t.case(key=case, nontrivial=len(set(hist)) > 1, outcome=("H", hj[-1], len(bad)))
+            t.extra["H_histories"] += 1
+            t.extra[f"H_histories_of_length_{len(hist)}"] += 1
+            for rel, msg in bad:
+                relation = rel if rel == "input_unmodified" else "result_independent_of_earlier_calls"
+                t.fail({"part": "H_call_history", "relation": relation, "last_call": hist[-1][0]}, case,
+                       f"after the calls {hj[:-1]} the call {hj[-1]} fails [{rel}]: {msg}")
+    finally:
+        h_reload()
+    return t
+
+
 # ============================================================================= Y: memory layout / dtype / container of the input and of the mask
 # The same values handed over in every spelling the entry point may meet.  Judged (a) by the usual oracle and (b)
 # differentially against the canonical call (contiguous float32 phase, contiguous bool mask): float32 spellings must give
@@ -2054,6 +2093,8 @@ def run(ctx):
     if not ctx.quick:
         hitems += [[a, b] for a in h_alphabet() for b in h_alphabet()]
     ht = ctx.pmap(h_worker, hitems, chunk=1, label="H call histories", seed=seed)
+    h_depth = 4 if ctx.quick else 5  # deeper histories over the 4-call core alphabet {2 shapes} x {bounded, periodic}
+    ht.merge(ctx.pmap(h_deep_worker, [[a, b] for a in h_core_alphabet() for b in h_core_alphabet()], chunk=1, label=f"H histories of length {h_depth} (core alphabet)", seed=seed, depth=h_depth))
     h_reload()
 
     # ---- T: two threads, one preemption
@@ -2106,6 +2147,7 @@ def run(ctx):
             "L_boundary_32767_32768": "not explored end to end (needs a 1 x 73,000 grid whose tree root is at one end); reached in A3 only, thorough tier",
             "A3_chains": [300, 600] + ([] if ctx.quick else [73000]), "A3_orders": list(A3_ORDERS),
             "H_call_alphabet": [[c[0], list(c[1])] for c in h_alphabet()], "H_history_length": 2 if ctx.quick else 3,
+            "H_core_alphabet": [[c[0], list(c[1])] for c in h_core_alphabet()], "H_core_history_length": 4 if ctx.quick else 5,
             "H_histories": int(ht.extra["H_histories"]),
             "Y_points": [list(x) for x in y_lattice(ctx)[:3]] + ["..."], "Y_grid_points": len(y_lattice(ctx)), "Y_calls": int(yt.extra["Y_calls"]),
             "Y_phase_spellings": ["c_f32 (canonical)"] + list(Y_PHASE_F32 + Y_PHASE_OTHER), "Y_mask_spellings": ["bool (canonical)"] + list(Y_MASKS),
